@@ -205,6 +205,14 @@ def not_started(rec):
     return inspect.getcoroutinestate(rec['coro']) == inspect.CORO_CREATED
 
 
+def transfer_of_task(loop, task):
+    """the transfer a task was created for (None for tasks that are not negotiations)"""
+    for r in loop.task_log:
+        if r['task'] is task:
+            return r['transfer']
+    return None
+
+
 def live_negotiations(loop, transfer):
     return [r for r in loop.task_log if r['transfer'] is transfer and r['kind'] in NEGOTIATION_COROS
             and not r['task'].done()]
@@ -226,7 +234,8 @@ class FakeFileConnection:
         self.transfer = None
 
     async def send_message(self, data):
-        self.net.file_writes.append((self.net.loop.time(), self.username, data))
+        self.net.file_writes.append({'at': self.net.loop.time(), 'username': self.username, 'data': data,
+                                     'task': asyncio.current_task()})
 
     async def receive_transfer_offset(self):
         return 0
@@ -265,7 +274,8 @@ class FakeNetwork:
         self.file_connections = []
 
     async def send_peer_messages(self, username, *messages, raise_on_error=True):
-        rec = {'at': self.loop.time(), 'username': username, 'messages': messages, 'status': 'pending', 'done_at': None}
+        rec = {'at': self.loop.time(), 'username': username, 'messages': messages, 'status': 'pending', 'done_at': None,
+               'task': asyncio.current_task()}
         self.attempts.append(rec)
         kind, delay = self.policy('send', username, messages)
         try:
@@ -287,7 +297,7 @@ class FakeNetwork:
         return fut
 
     async def create_peer_connection(self, username, typ, **kw):
-        rec = {'at': self.loop.time(), 'username': username, 'status': 'pending'}
+        rec = {'at': self.loop.time(), 'username': username, 'status': 'pending', 'task': asyncio.current_task()}
         self.connects.append(rec)
         kind, delay = self.policy('connect', username, typ)
         try:
@@ -566,6 +576,15 @@ def step_harness(c, dirs, users, prop, slots_hi=4, inflight=True, sym_users=True
             T.append(t)
             state.append(st)
 
+        if not c.symbolic:
+            c.note(f'upload_slots={S}')
+            for j in range(nu):
+                c.note(f'user{j}: status={status[j].name} friend={friend[j]} privileged={priv[j]}')
+            for i, t in enumerate(T):
+                c.note(f'transfer {i}: {t.direction.name} of user{users[i]} state={t.state.VALUE.name} '
+                       f'remotely_queued={t.remotely_queued} fail_reason={t.fail_reason} '
+                       f'slot={"unfinished task" if infl[i] else "finished task" if stale[i] else "empty"} '
+                       f'transition_in_progress={locked[i]}')
         n_before = len(loop.task_log)
         exc = None
         try:
@@ -576,6 +595,8 @@ def step_harness(c, dirs, users, prop, slots_hi=4, inflight=True, sym_users=True
         c.check(exc is None, 'step_no_exception', sig=[prop], info=repr(exc))
         new = loop.task_log[n_before:]
         started = [[r for r in new if r['transfer'] is t] for t in T]
+        if not c.symbolic:
+            c.note('manage_transfers created: ' + ', '.join(f"{r['kind']} for transfer {i}" for i in range(n) for r in started[i]))
         unknown = [r for r in new if r['transfer'] is None or all(r['transfer'] is not t for t in T)]
         c.check(not unknown, 'step_only_known_tasks', sig=[prop], info=[r['kind'] for r in unknown])
 
